@@ -263,7 +263,7 @@ def ch_e2e(ctx, cases=None) -> Channel:
     given = cases
     cases = []
     for stream in ("bbb", "tears", "syn1", "syn2", "syn3", "syn4", "syn5", "syn6", "syn7", "syn8", "syn9", "bbbd",
-                   "synshort", "synlong", "synday", "syn10", "synbig", "sy$n", "synfrac", "synodd"):
+                   "synshort", "synlong", "synday", "syn10", "synbig", "sy$n", "synfrac", "sgodd"):
         for name, mode in temps:
             opts = []
             if rng.random() < .5 and mode == "vod":
